@@ -270,6 +270,8 @@ def impl_accept(source):
         return True, fn
     except ExpressionError:
         return False, None
+    except RecursionError:   # nothing was returned, nothing can be evaluated: a rejection (by a raw error)
+        return False, None
     except Exception as ex:  # the visitor let it through; compile() then failed with a raw error
         return True, ex
 
@@ -429,8 +431,58 @@ def run(ck):
         if a:
             for sig, what in audit_accepted(s, f if callable(f) else (lambda **k: None)):
                 ck.fail_input(sig, what, {"expr": s, "names": NAMES})
+    # ---------- deep expressions: a long chain (deeper than a recursive walk can follow, still compilable) with an escape
+    # idiom in an argument / keyword position of a whitelisted call; whatever happens, it must not be accepted
+    payloads = ["max((), default=__import__('os'))", "abs(x=().__class__)", "min(x, key=lambda v: v)", "abs(__import__('os'))",
+                "max(x, *[y for y in (1,)])", "round(x, ndigits=open)", "int(x, **{})", "str(object=x.real)"]
+    n_deep = 0
+    for terms in ((150, 340, 400, 600, 1000, 1300) if thorough else (340, 600, 1000)):
+        chain = " + ".join(["x"] * terms)
+        for pl in payloads:
+            for src_ in ("(%s, %s)" % (chain, pl), "%s + %s" % (chain, pl), "%s if %s else x" % (pl, chain)):
+                n_deep += 1
+                try:
+                    acc, fn = impl_accept(src_)
+                except BaseException as ex:  # noqa
+                    continue
+                if acc:
+                    for sig, what in audit_accepted(src_, fn if callable(fn) else (lambda **k: None)):
+                        ck.fail_input(sig + ":deep-expression", what + " (inside a chain of %d terms)" % terms,
+                                      {"expr": src_, "names": NAMES, "kind": "deep", "terms": terms, "payload": pl})
+                        break
+    ck.notes["deep_expression_runs"] = n_deep
     # ---------- history oracle: acceptance must not depend on what was compiled earlier in the process
     from semantiva.utils.safe_eval import ExpressionEvaluator, ExpressionError
+    # (a) another evaluator with user-registered functions was used before; (b) an evaluator has already evaluated something
+    n_hist2 = 0
+    try:
+        custom = ExpressionEvaluator(allowed_funcs={"len": len, "sorted": sorted, "sum": sum})
+        try:
+            custom.compile("x + 1", {"x"})(x=1)
+        except Exception:  # noqa
+            pass
+    except Exception:  # noqa
+        custom = None
+    used = ExpressionEvaluator()
+    try:
+        used.compile("abs(x) + 1", {"x"})(x=-2)
+    except Exception:  # noqa
+        pass
+    probes = ["len(x)", "sorted(x)", "sum(x)", "__builtins__(x)", "__builtins__", "float(len(str(x)))", "len", "max(len(x), 1)"]
+    for who, ev_factory in (("fresh-evaluator-after-a-custom-function-evaluator", lambda: ExpressionEvaluator()),
+                            ("evaluator-that-has-evaluated-before", lambda: used)):
+        for src_ in probes:
+            n_hist2 += 1
+            try:
+                fn = ev_factory().compile(src_, {"x"})
+            except ExpressionError:
+                continue
+            except Exception:  # noqa
+                continue
+            ck.fail_input("C11:accepted-after-history:%s" % who,
+                          "%r is accepted by a default evaluator (%s); a fresh process rejects it" % (src_, who),
+                          {"expr": src_, "names": ["x"], "kind": "history2", "who": who})
+    ck.notes["history2_oracle_runs"] = n_hist2
     hist_srcs = ["x + y", "max(x, y)", "y", "x * y - 1", "(x, y)", "abs(y) if x else y", "x < y < 2", "min(y, 1)"]
     n_hist = 0
     for src_ in hist_srcs:
